@@ -40,7 +40,14 @@ func runC15(c *core.Ctx) {
 	t := c.T
 	kind := []int{kH264, kAV1Dep, kH264AVC}[t.Intn(3)]
 	opts := drawPayloaderOpts(t, kind)
-	mtu := opts.minMTU() + []int{6, 3, 12, 30, 80}[t.Intn(5)] + t.Intn(4)
+	mtu := opts.minMTU() + []int{6, 3, 12, 30, 80, 0, 1}[t.Intn(7)] + t.Intn(4)
+	h264SharedPrefix = nil
+	if (kind == kH264 || kind == kH264AVC) && t.Chance(1, 3) {
+		// consecutive slices share their first bytes: fragments of frame B can equal fragments of frame A
+		h264SharedPrefix = append([]byte{byte(t.Intn(4))<<5 | byte([]int{1, 5}[t.Intn(2)])}, nalBody(t, 1+t.Intn(6))...)
+		c.Probe("shared-slice-prefix")
+	}
+	defer func() { h264SharedPrefix = nil }()
 	pay := opts.build()
 	gen := &mediaGen{kind: kind}
 	long := newDepack(kind)
